@@ -8,7 +8,9 @@ import (
 	"fmt"
 	"math/big"
 	"net"
+	"net/http"
 	"os"
+	"sort"
 	"strings"
 	"sync"
 	"sync/atomic"
@@ -37,6 +39,7 @@ func init() {
 	SubRegistry["c12-pubs"] = subC12Pubs
 	SubRegistry["c12-name"] = subC12Name
 	SubRegistry["c12-selector"] = subC12Selector
+	SubRegistry["c12-stage"] = subC12Stage
 }
 
 // ---------------------------------------------------------------- key generation: one member sends malformed messages
@@ -572,6 +575,322 @@ func subC12Selector(kind string) string {
 	}
 }
 
+// ---------------------------------------------------------------- XPath selectors from an expression grammar
+//
+// The selector of a request is an arbitrary XPath 1.0 expression chosen by whoever makes the request,
+// and the document is whatever the URL returns.  Whether a selector is accepted by the library's
+// compiler says nothing about what its evaluation does: operands of the wrong type (a predicate that
+// is a negative number, arithmetic on a string, a boolean compared with a number, a number where a
+// function takes a string) and comparisons of a node set with a number whose outcome depends on the
+// text of the fetched document are only met while the query runs over the document.  xpGen draws
+// selectors from the expression grammar (location paths with axes, node tests and predicates;
+// predicates built from the number / string / boolean / node-set functions and operators) where an
+// operand is, with probability ill percent, of a type other than the one the operator asks for.
+
+type xpGen struct {
+	rng *hx.Rng
+	ill int
+}
+
+func (g *xpGen) pick(xs ...string) string { return xs[g.rng.Intn(len(xs))] }
+
+// operand of type want: 'n' number, 's' string, 'b' boolean, 'N' node set, '?' any
+func (g *xpGen) operand(want byte, d int) string {
+	if want == '?' || g.rng.Chance(g.ill) {
+		want = "nsbN"[g.rng.Intn(4)]
+	}
+	switch want {
+	case 'n':
+		return g.num(d)
+	case 's':
+		return g.str(d)
+	case 'b':
+		return g.boolean(d)
+	}
+	return g.relPath(d)
+}
+
+func (g *xpGen) num(d int) string {
+	k := g.rng.Intn(9)
+	if d <= 0 {
+		k = g.rng.Intn(2)
+	}
+	switch k {
+	case 0:
+		return g.pick("0", "1", "2", "3", "-1", "-2", "1.5", "1.2", "100", "0.5")
+	case 1:
+		return g.pick("position()", "last()")
+	case 2:
+		return "count(" + g.operand('N', d-1) + ")"
+	case 3:
+		return "sum(" + g.operand('N', d-1) + ")"
+	case 4:
+		return "string-length(" + g.operand('s', d-1) + ")"
+	case 5:
+		return "number(" + g.operand('?', d-1) + ")"
+	case 6:
+		return g.pick("floor", "ceiling", "round") + "(" + g.operand('n', d-1) + ")"
+	}
+	e := g.operand('n', d-1) + " " + g.pick("+", "-", "*", "div", "mod") + " " + g.operand('n', d-1)
+	if g.rng.Bool() {
+		return "(" + e + ")"
+	}
+	return e
+}
+
+func (g *xpGen) str(d int) string {
+	k := g.rng.Intn(9)
+	if d <= 0 {
+		k = g.rng.Intn(2)
+	}
+	switch k {
+	case 0:
+		return g.pick("'USD'", "'EUR'", "'n/a'", "''", "'12'", "'v1'", "'x'", "\"a b\"")
+	case 1:
+		return g.pick("name()", "local-name()", "string()", "string(.)")
+	case 2:
+		return "string(" + g.operand('?', d-1) + ")"
+	case 3:
+		return "concat(" + g.operand('s', d-1) + ", " + g.operand('s', d-1) + ")"
+	case 4:
+		if g.rng.Bool() {
+			return "substring(" + g.operand('s', d-1) + ", " + g.operand('n', d-1) + ")"
+		}
+		return "substring(" + g.operand('s', d-1) + ", " + g.operand('n', d-1) + ", " + g.operand('n', d-1) + ")"
+	case 5:
+		return "normalize-space(" + g.operand('s', d-1) + ")"
+	case 6:
+		return "translate(" + g.operand('s', d-1) + ", " + g.operand('s', d-1) + ", " + g.operand('s', d-1) + ")"
+	case 7:
+		return g.pick("substring-before", "substring-after") + "(" + g.operand('s', d-1) + ", " + g.operand('s', d-1) + ")"
+	}
+	return "name(" + g.operand('N', d-1) + ")"
+}
+
+func (g *xpGen) boolean(d int) string {
+	k := g.rng.Intn(9)
+	if d <= 0 {
+		k = g.rng.Intn(2)
+	}
+	switch k {
+	case 0:
+		return g.pick("true()", "false()")
+	case 1:
+		return g.pick("@id", "@cur", "name", "price", "text()") // existence tests
+	case 2:
+		return "not(" + g.operand('b', d-1) + ")"
+	case 3:
+		return "boolean(" + g.operand('?', d-1) + ")"
+	case 4:
+		return g.pick("contains", "starts-with", "ends-with") + "(" + g.operand('s', d-1) + ", " + g.operand('s', d-1) + ")"
+	case 5:
+		e := g.operand('b', d-1) + " " + g.pick("and", "or") + " " + g.operand('b', d-1)
+		if g.rng.Bool() {
+			return "(" + e + ")"
+		}
+		return e
+	}
+	// a comparison takes operands of every type (XPath 1.0, 3.4): node set against number, string,
+	// boolean or node set included
+	return g.operand('?', d-1) + " " + g.pick("=", "!=", "<", "<=", ">", ">=") + " " + g.operand('?', d-1)
+}
+
+func (g *xpGen) step(d int) string {
+	var s string
+	switch g.rng.Intn(12) {
+	case 0:
+		s = "*"
+	case 1:
+		return g.pick(".", "..")
+	case 2:
+		s = g.pick("@id", "@cur", "@*")
+	case 3:
+		s = g.pick("text()", "node()")
+	case 4:
+		// (the ancestor and ancestor-or-self axes are left out: behind a descendant step - //x//ancestor::y -
+		// the library's ancestor query moves the cursor of the query that feeds it and never ends, in the
+		// pinned code as well; that is a different defect from the one this generator is after and it
+		// would turn every run into a series of 10 s time-outs)
+		s = g.pick("child", "descendant", "descendant-or-self", "parent", "following-sibling", "preceding-sibling", "following", "preceding", "self", "attribute") +
+			"::" + g.pick("*", "item", "rate", "name", "price", "node()")
+	default:
+		s = g.pick("item", "rate", "name", "price", "a", "b")
+	}
+	for d > 0 && g.rng.Chance(35) {
+		s += "[" + g.operand('?', d-1) + "]"
+		d--
+	}
+	return s
+}
+
+func (g *xpGen) relPath(d int) string {
+	s := g.step(d)
+	for n := 0; n < 2 && g.rng.Chance(30); n++ {
+		s += g.pick("/", "//") + g.step(d-1)
+	}
+	if g.rng.Chance(10) {
+		s = g.pick("/", "//") + s
+	}
+	return s
+}
+
+// selector is an absolute location path (what dataParse hands to the XML branch) whose last steps
+// carry at least one predicate
+func (g *xpGen) selector(d int) string {
+	s := g.pick("/", "//") + g.pick("root", "rates", "*") + g.pick("/", "//") + g.pick("item", "rate", "*", "price", "name")
+	s += "[" + g.operand('?', d) + "]"
+	for g.rng.Chance(25) {
+		s += "[" + g.operand('?', d-1) + "]"
+	}
+	if g.rng.Chance(30) {
+		s += g.pick("/", "//") + g.step(d-1)
+	}
+	return s
+}
+
+// xpDoc is a document of records whose text is numeric throughout (numeric) or has the values feeds
+// put where a number is missing; returns the document and its class
+func xpDoc(rng *hx.Rng) ([]byte, string) {
+	numeric := rng.Bool()
+	leaf := func() string {
+		if !numeric && rng.Chance(40) {
+			return []string{"n/a", "", "-", "v12", "1,5", "NaN", "null", "1e", " ", "0x10", "USD"}[rng.Intn(11)]
+		}
+		switch rng.Intn(4) {
+		case 0:
+			return fmt.Sprintf("%d", rng.Intn(1000))
+		case 1:
+			return fmt.Sprintf("%d.%d", rng.Intn(100), rng.Intn(100))
+		case 2:
+			return fmt.Sprintf("-%d", rng.Intn(10))
+		}
+		return fmt.Sprintf(" %d ", rng.Intn(10))
+	}
+	root := []string{"root", "rates"}[rng.Intn(2)]
+	var sb strings.Builder
+	sb.WriteString("<" + root + ">")
+	for i, n := 0, rng.Intn(5); i < n; i++ {
+		t := []string{"item", "rate"}[rng.Intn(2)]
+		attr := ""
+		if rng.Chance(60) {
+			attr += fmt.Sprintf(" cur=\"%s\"", []string{"USD", "EUR", "", "12"}[rng.Intn(4)])
+		}
+		if rng.Chance(40) {
+			attr += fmt.Sprintf(" id=\"%s\"", leaf())
+		}
+		sb.WriteString("<" + t + attr + ">")
+		if rng.Chance(40) {
+			sb.WriteString(leaf())
+		} else {
+			for j, m := 0, rng.Intn(4); j < m; j++ {
+				c := []string{"name", "price", "a", "b"}[rng.Intn(4)]
+				sb.WriteString("<" + c + ">" + leaf() + "</" + c + ">")
+			}
+		}
+		sb.WriteString("</" + t + ">")
+	}
+	sb.WriteString("</" + root + ">")
+	if numeric {
+		return []byte(sb.String()), "numeric"
+	}
+	return []byte(sb.String()), "mixed"
+}
+
+// ---------------------------------------------------------------- the real result stage on a fetched document
+//
+// One node, requests one after the other: the real genQueryResult stage (fetch over loopback HTTP,
+// extract, append the submitter) runs in its own goroutine as in handleQuery - nothing of the harness
+// is on its stack.  The request under test may end with a result or with an error; the plain request
+// that follows must be served.  Prints "served".
+
+var c12StageKinds = map[string]struct{ doc, sel string }{
+	"predicate-negative-number":       {"<rates><rate cur=\"USD\">1.2</rate><rate cur=\"EUR\">1.0</rate></rates>", "/rates/rate[-1]"},
+	"predicate-number-plus-string":    {"<rates><rate cur=\"USD\">1.2</rate></rates>", "/rates/rate[1 + 'x']"},
+	"predicate-boolean-less-number":   {"<rates><rate cur=\"USD\">1.2</rate></rates>", "/rates/rate[true() < 2]"},
+	"predicate-function-of-numbers":   {"<rates><rate cur=\"USD\">1.2</rate></rates>", "/rates/rate[starts-with(1, 2)]"},
+	"predicate-count-of-string":       {"<rates><rate cur=\"USD\">1.2</rate></rates>", "/rates/rate[count('x') = 1]"},
+	"node-set-equals-number":          {"<rates><rate cur=\"USD\">1.2</rate><rate cur=\"EUR\">n/a</rate></rates>", "/rates/rate[@cur='USD' or . = 1.2]"},
+	"node-set-less-number":            {"<root><item><price>12</price></item><item><price></price></item></root>", "//item[price < 20]"},
+	"does-not-compile":                {"<rates><rate>1</rate></rates>", "/rates/rate["},
+	"not-a-node-set":                  {"<rates><rate>1</rate></rates>", "/rates/rate/count(.)"},
+	"document-becomes-non-numeric":    {"<rates><rate cur=\"USD\">1.2</rate><rate cur=\"EUR\">1.0</rate></rates>", "/rates/rate[. = 1.2]"},
+	"well-typed-selector-for-control": {"<rates><rate cur=\"USD\">1.2</rate></rates>", "/rates/rate[@cur='USD']"},
+}
+
+func subC12Stage(kind string) string {
+	k, ok := c12StageKinds[kind]
+	if !ok {
+		return "no such kind"
+	}
+	var mu sync.Mutex
+	docs := map[string][]byte{"/feed": []byte(k.doc), "/plain": []byte("<root><item>7</item></root>")}
+	ln, err := net.Listen("tcp", "127.0.0.1:0")
+	if err != nil {
+		fmt.Fprintln(os.Stderr, "listen:", err)
+		os.Exit(97)
+	}
+	srv := &http.Server{Handler: http.HandlerFunc(func(rw http.ResponseWriter, rq *http.Request) {
+		mu.Lock()
+		d := docs[rq.URL.Path]
+		mu.Unlock()
+		rw.Write(d)
+	})}
+	go srv.Serve(ln)
+	defer srv.Close()
+	base := "http://" + ln.Addr().String()
+	// one request through the stage: "result", "error" or "silent" (neither within 10 s)
+	request := func(path, sel string) string {
+		ctx, cancel := context.WithTimeout(context.Background(), 10*time.Second)
+		defer cancel()
+		sc := make(chan []byte, 1)
+		sc <- []byte("submitter-0123456789")
+		out, errc := dosnode.VerifGenQueryResult(ctx, sc, base+path, sel, doubles.NopLogger{})
+		for out != nil || errc != nil {
+			select {
+			case v, ok := <-out:
+				if ok && v != nil {
+					return "result"
+				}
+				if !ok {
+					out = nil
+				}
+			case e, ok := <-errc:
+				if ok && e != nil {
+					return "error"
+				}
+				if !ok {
+					errc = nil
+				}
+			case <-ctx.Done():
+				return "silent"
+			}
+		}
+		return "closed"
+	}
+	var trace []string
+	if kind == "document-becomes-non-numeric" {
+		// the URL used to serve numbers: the request is answered; then the feed changes
+		if r := request("/feed", k.sel); r != "result" {
+			return "not-served: the request on the numeric document ended with " + r
+		}
+		mu.Lock()
+		docs["/feed"] = []byte("<rates><rate cur=\"USD\">n/a</rate><rate cur=\"EUR\">1.0</rate></rates>")
+		mu.Unlock()
+	}
+	r := request("/feed", k.sel)
+	trace = append(trace, r)
+	if r == "silent" {
+		return "not-served: the request under test ended with neither a result nor an error"
+	}
+	if kind == "well-typed-selector-for-control" && r != "result" {
+		return "not-served: the well-typed request ended with " + r
+	}
+	if r2 := request("/plain", "/root/item"); r2 != "result" {
+		return "not-served: the request after it ended with " + r2 + " (" + strings.Join(trace, ",") + ")"
+	}
+	return "served"
+}
+
 // ---------------------------------------------------------------- correspondence scenarios
 
 // arg: "n,own|present,idx,kind,k|..." -- kind 0 = no key sub-message, 1 = key k*G2, 2 = undecodable bytes
@@ -817,6 +1136,18 @@ func genC12(rng *hx.Rng, tier string, w *hx.Writer) error {
 				return "selector-hang", out
 			},
 		})
+	}
+	// the real result stage on selectors whose evaluation (not their compilation) fails, by themselves
+	// or on the document that the URL serves; a plain request follows
+	{
+		var ks []string
+		for k := range c12StageKinds {
+			ks = append(ks, k)
+		}
+		sort.Strings(ks)
+		for _, k := range ks {
+			scen("result-extractor", k, "c12-stage", 30*time.Second)
+		}
 	}
 	// handshake: the model says which handshakes are accepted (entry guards, op 3)
 	hs := []struct {
@@ -1077,6 +1408,55 @@ func genC12(rng *hx.Rng, tier string, w *hx.Writer) error {
 		}
 		w.Put(hx.Case{Entry: "-", Op: 0, Args: hx.L(hx.B(doc[:minInt(len(doc), 300)]), hx.B([]byte(sel))), Impl: hx.B([]byte(cls)), Oracle: oracle,
 			Tags: []string{"extractor", "r:" + cls, "nt"}})
+	}
+	// the extractor on XPath selectors drawn from the expression grammar (operands of every type in
+	// every position) over documents with numeric and non-numeric text: whatever the evaluation of the
+	// selector does on the document, the extractor returns a value or an error
+	nXp := 400
+	if tier == "thorough" {
+		nXp = 20000
+	}
+	for it := 0; it < nXp; it++ {
+		g := &xpGen{rng: rng, ill: []int{0, 10, 30}[it%3]}
+		doc, dcls := xpDoc(rng)
+		sel := g.selector(1 + rng.Intn(3))
+		res := make(chan string, 1)
+		var panicText string
+		go func() {
+			r := parseOnce(doc, sel)
+			if r == hx.P {
+				panicText = hx.LastPanic
+			}
+			res <- r
+		}()
+		var impl string
+		select {
+		case impl = <-res:
+		case <-time.After(10 * time.Second):
+			impl = "H"
+		}
+		oracle := "ok"
+		if impl == hx.P {
+			oracle = hx.Fail("extractor-panic", "the XML extractor panicked on the selector "+sel+" over "+string(doc)+": "+panicText)
+		} else if impl == "H" {
+			oracle = hx.Fail("extractor-hang", "the XML extractor did not return within 10 s on the selector "+sel+" over "+string(doc))
+		}
+		cls := "value"
+		switch impl {
+		case hx.E:
+			cls = "error"
+		case hx.B(nil):
+			cls = "empty"
+		case hx.P:
+			cls = "panic"
+		case "H":
+			cls = "hang"
+		}
+		tags := []string{"extractor-xpath", "r:" + cls, "doc:" + dcls, fmt.Sprintf("ill:%d", g.ill)}
+		if cls != "error" {
+			tags = append(tags, "nt")
+		}
+		w.Put(hx.Case{Entry: "-", Op: 0, Args: hx.L(hx.B(doc), hx.B([]byte(sel))), Impl: hx.B([]byte(cls)), Oracle: oracle, Tags: tags})
 	}
 	_ = dosnode.VerifPadOrTrim
 	return nil
